@@ -10,7 +10,7 @@ From Coq Require Import List ZArith NArith Bool Arith String.
 Import ListNotations.
 From DD Require Import Base.PyStr Base.Value Path.PathModel Diff.Tree Diff.DiffModel Diff.DiffShow
   Diff.DiffFaithful Delta.DeltaModel Delta.DeltaVerify Delta.DeltaVerifyDiff Delta.DeltaVerifyIndep Delta.DeltaVerifyEx
-  Delta.DeltaReverse Delta.DeltaReverseDiff Delta.DeltaReverseInplace Delta.DeltaReverseDiffInplace Delta.DeltaReverseSeq.
+  Delta.DeltaReverse Delta.DeltaReverseDiff Delta.DeltaReverseInplace Delta.DeltaReverseDiffInplace Delta.DeltaReverseTuple Delta.DeltaReverseSeq.
 
 (* ================================================================== *)
 (* 1. a non-bidirectional delta refuses subtraction                    *)
@@ -335,6 +335,40 @@ Proof.
   split; [exact P|]. split; [exact H|]. split; [exact ex_forward|vm_compute; reflexivity].
 Qed.
 Print Assumptions C08_sub_inverts_partial_guard_satisfiable.
+
+(* a flat tuple (the one tuple shape Delta can edit: the root tuple is coerced to a
+   list by the first write and restored by _do_post_process): the run on
+   (x0,..,xn) is the run on [x0,..,xn] re-tupled, errors included ... *)
+Theorem C08_flat_tuple_is_list_run :
+  forall conv ro ao, ro [] = [] ->
+  forall d xs,
+    inplace d -> d_bidir d = true -> Forall (fun w => flat_path (wpath w)) (writes d) ->
+    exists ys n, apply conv ro ao d (VList xs) = (VList ys, n) /\
+                 apply conv ro ao d (VTuple xs) = (VTuple ys, n).
+Proof. exact flat_tuple_transfer. Qed.
+Print Assumptions C08_flat_tuple_is_list_run.
+
+(* ... hence the inversion theorem without the no-tuple-parent guard *)
+Theorem C08_sub_inverts_partial_flat_tuple :
+  forall conv ro ao, ro [] = [] ->
+  forall d xs v2,
+    inplace d -> d_bidir d = true -> Forall (fun w => flat_path (wpath w)) (writes d) ->
+    pairwise_div (map wpath (writes d)) = true ->
+    (forall w, In w (writes d) ->
+       resolve (VTuple xs) (wpath w) = Some (snd (fst w)) /\ wf (snd w) = true) ->
+    apply conv ro ao d (VTuple xs) = (v2, 0) ->
+    sub conv ro ao d v2 = Some (VTuple xs, 0).
+Proof. exact flat_tuple_sub_inverts. Qed.
+Print Assumptions C08_sub_inverts_partial_flat_tuple.
+
+Theorem C08_sub_inverts_partial_flat_tuple_instance :
+  inplace ex5_d /\ Forall (fun w => flat_path (wpath w)) (writes ex5_d) /\
+  pairwise_div (map wpath (writes ex5_d)) = true /\
+  (forall w, In w (writes ex5_d) ->
+     resolve (VTuple ex5_xs) (wpath w) = Some (snd (fst w)) /\ wf (snd w) = true) /\
+  apply ex_conv ex_ro ex_ao ex5_d (VTuple ex5_xs) = (ex5_t2, 0) /\ List.length (writes ex5_d) = 2.
+Proof. split; [exact ex5_inplace|exact ex5_guards]. Qed.
+Print Assumptions C08_sub_inverts_partial_flat_tuple_instance.
 
 (* the same for the bidirectional delta of a diff that reports value / type
    changes at one path each ([inplace_entry]) and records no opcodes: all
